@@ -686,6 +686,8 @@ pub fn gen_buffer(p: &Pat, rng: &mut Rng, limit: usize) -> Vec<u8> {
 pub type Dump = (Vec<yara_x::verif_c01dump::SubPatternDump>, Vec<yara_x::verif_c01dump::AtomDump>, Vec<usize>);
 #[derive(Clone, Debug)]
 pub struct ScanOut { pub matches: Vec<(usize, usize, Option<u8>)>, pub panic: Option<String>, pub dump: Option<Dump>,
+                     /// kernel, atom hits and verified sub-pattern matches in the order the scan loop produced them
+                     pub trace: Option<yara_x::verif_c01dump::ScanTrace>,
                      /// Match::data() returned exactly buffer[range] for every match (None: fine; Some(msg): what went wrong)
                      pub bytes_wrong: Option<String> }
 
@@ -714,6 +716,7 @@ pub fn scan_multi(src: &str, datas: &[&[u8]], idents: &[&str], max_matches: Opti
     if let Some(n) = max_matches { sc.max_matches_per_pattern(n); }
     let mut all = vec![];
     for data in datas {
+        yara_x::verif_c01dump::verif_c01_trace_start();
         let r = catch(AssertUnwindSafe(|| {
             let res = sc.scan(data).map_err(|e| e.to_string())?;
             let rule = match res.matching_rules().chain(res.non_matching_rules()).find(|r| r.identifier() == "r") {
@@ -737,11 +740,12 @@ pub fn scan_multi(src: &str, datas: &[&[u8]], idents: &[&str], max_matches: Opti
             }
             Ok(per)
         }));
+        let trace = Some(yara_x::verif_c01dump::verif_c01_trace_take());
         match r {
-            Ok(Ok(per)) => all.push(per.into_iter().map(|(m, bw)| ScanOut { matches: m, panic: None, bytes_wrong: bw, dump: dump.clone() }).collect()),
+            Ok(Ok(per)) => all.push(per.into_iter().map(|(m, bw)| ScanOut { matches: m, panic: None, bytes_wrong: bw, dump: dump.clone(), trace: trace.clone() }).collect()),
             Ok(Err(e)) => return Err(e),
             Err(p) => {
-                all.push(idents.iter().map(|_| ScanOut { matches: vec![], panic: Some(p.clone()), bytes_wrong: None, dump: dump.clone() }).collect());
+                all.push(idents.iter().map(|_| ScanOut { matches: vec![], panic: Some(p.clone()), bytes_wrong: None, dump: dump.clone(), trace: trace.clone() }).collect());
                 // the scanner may be unusable after a panic
                 sc = yara_x::Scanner::new(&rules);
                 if let Some(n) = max_matches { sc.max_matches_per_pattern(n); }
@@ -1085,7 +1089,9 @@ fn pipe_case(rng: &mut Rng, idx: usize, stats: &mut Stats) -> Option<(String, St
     } else { rule_source(&p, rng.below(CONDS.len() as u64) as usize, noise) };
     let out = match scan(&src, &data, None) { Ok(o) => o, Err(e) => { eprintln!("c01: stream d pattern rejected: {e}\n{src}"); return None; } };
     let (sps, atoms, nsp, natoms) = coq_dump(out.dump.as_ref()?)?;
-    stats.inc("pipeline_cases"); stats.add("pipeline_sub_patterns", nsp as u64); stats.add("pipeline_atoms", natoms as u64);
+    let (kernel, hits, _, nhits, _) = coq_trace(&out, nsp)?;
+    stats.inc("pipeline_cases"); stats.add("pipeline_hits", nhits as u64);
+    stats.inc(&format!("pipeline_kernel_{}", out.trace.as_ref().map_or("none", |t| t.kernel))); stats.add("pipeline_sub_patterns", nsp as u64); stats.add("pipeline_atoms", natoms as u64);
     if anchored { stats.inc("pipeline_anchored"); }
     stats.inc(&format!("pipeline_{}", shape(&p).split(':').next().unwrap()));
     if out.panic.is_some() || out.bytes_wrong.is_some() {
@@ -1093,7 +1099,7 @@ fn pipe_case(rng: &mut Rng, idx: usize, stats: &mut Stats) -> Option<(String, St
         let (case, replay, _) = scan_case(&p, &data, 0, noise, None, idx).ok()?;
         return Some((case, replay, String::new()));
     }
-    let case = format!("PipeCase {} {} {} {} {} {}", coq_pat(&p), sps, atoms, coq_bool(anchored), coq_list(&data, |b| b.to_string()),
+    let case = format!("PipeCase {} {} {} {} {} {} {} {}", coq_pat(&p), sps, atoms, coq_bool(anchored), kernel, hits, coq_list(&data, |b| b.to_string()),
         coq_list(&out.matches, |(s, l, k)| format!("({},{},{})", s, l, coq_key(k))));
     let replay = format!("{{\"stream\":\"pipeline\",\"index\":{},\"shape\":{},\"tags\":{},\"data_len\":{},\"source\":{},\"data_hex\":\"{}\",\"max_matches_per_pattern\":null,\"reported\":{},\"panic\":null,\"sub_patterns\":{},\"atoms\":{}}}",
         idx, json_str(&shape(&p)), serde_json::to_string(&tags(&p)).unwrap(), data.len(), json_str(&src), hex(&data),
@@ -1159,22 +1165,54 @@ fn directed_perturb(rng: &mut Rng, round: usize) -> (Pat, Vec<Vec<u8>>, &'static
 }
 
 // ------------------------------------------------------------------ stream (e): chains
-/// a pattern that the compiler splits into a chain of 2..5 literal pieces: hex with jumps over the
-/// chaining threshold / unbounded jumps, or /lit.*lit.{n,}lit/s, uniformly greedy or lazy
-fn gen_chain(rng: &mut Rng) -> (Pat, Vec<Vec<u8>>) {
+/// a pattern that the compiler splits into a chain of 2..5 pieces: hex with jumps over the chaining
+/// threshold / unbounded jumps, or /piece.*piece.{n,}piece/s, uniformly greedy or lazy.  The pieces are
+/// plain literals (Literal* sub-patterns) or small expressions (Regexp* sub-patterns: classes, nibble
+/// masks, short jumps, x+, y?, alternatives); regexps also nocase, wide, ascii wide, fullword.
+/// Returns the pattern, the pieces, nocase, and whether instances are to be written wide.
+fn gen_chain(rng: &mut Rng) -> (Pat, Vec<Re>, bool, Option<bool>) {
     let npieces = 2 + rng.below(4) as usize;
     let alpha: &[u8] = if rng.chance(1, 2) { b"abc" } else { b"abcdeXY_" };
-    let mut lits: Vec<Vec<u8>> = vec![];
-    for i in 0..npieces {
-        let l = if rng.chance(1, 6) { 5 + rng.below(3) as usize } else { 2 + rng.below(3) as usize };
-        // sometimes the same literal again
-        if i > 0 && rng.chance(1, 6) { let k = rng.below(i as u64) as usize; lits.push(lits[k].clone()); }
-        else { lits.push((0..l).map(|_| *rng.pick(alpha)).collect()); }
-    }
     let regexp = rng.chance(1, 2);
     let greedy = rng.chance(1, 2);
+    let literal_only = rng.chance(2, 5);
+    let lit = |rng: &mut Rng, l: usize| -> Vec<u8> { (0..l).map(|_| *rng.pick(alpha)).collect() };
+    let mut pieces: Vec<Re> = vec![];
+    for i in 0..npieces {
+        if i > 0 && rng.chance(1, 6) { let k = rng.below(i as u64) as usize; pieces.push(pieces[k].clone()); continue; }   // the same piece again
+        if literal_only || rng.chance(1, 2) {
+            let l = if rng.chance(1, 6) { 5 + rng.below(3) as usize } else { 2 + rng.below(3) as usize };
+            pieces.push(Re::Lit(lit(rng, l)));
+            continue;
+        }
+        let l0 = 1 + rng.below(2) as usize;
+        let mut v: Vec<Re> = vec![Re::Lit(lit(rng, l0))];
+        let extra = 1 + rng.below(2);
+        for _ in 0..extra {
+            let x = if regexp {
+                match rng.below(5) {
+                    0 => Re::Cls(Cls::Ranges(false, vec![(b'b', b'c')])),
+                    1 => Re::Rep(Box::new(Re::Lit(vec![*rng.pick(alpha)])), 1, None, greedy),
+                    2 => Re::Rep(Box::new(Re::Lit(vec![*rng.pick(alpha)])), 0, Some(1), greedy),
+                    3 => Re::Alt(vec![Re::Lit(lit(rng, 1)), Re::Lit(lit(rng, 2))]),
+                    _ => Re::Rep(Box::new(Re::Cls(Cls::Any)), 1, Some(2), greedy),
+                }
+            } else {
+                match rng.below(5) {
+                    0 => { let b = *rng.pick(alpha); Re::Cls(Cls::Mask(b & 0xF0, 0xF0)) }
+                    1 => Re::Cls(Cls::Any),
+                    2 | 3 => Re::Rep(Box::new(Re::Cls(Cls::Any)), 1, Some(2), false),
+                    _ => Re::Alt(vec![Re::Cls(Cls::Byte(*rng.pick(alpha))), Re::Cat(vec![Re::Cls(Cls::Byte(*rng.pick(alpha))), Re::Cls(Cls::Byte(*rng.pick(alpha)))])]),
+                }
+            };
+            v.push(x);
+            let l1 = 1 + rng.below(2) as usize;
+            v.push(Re::Lit(lit(rng, l1)));
+        }
+        pieces.push(Re::Cat(v));
+    }
     let mut items: Vec<Re> = vec![];
-    for (i, l) in lits.iter().enumerate() {
+    for (i, pc) in pieces.iter().enumerate() {
         if i > 0 {
             let (mn, mx) = match rng.below(6) {
                 0 | 1 => (0, None), 2 => (1 + rng.below(4) as usize, None),
@@ -1184,21 +1222,40 @@ fn gen_chain(rng: &mut Rng) -> (Pat, Vec<Vec<u8>>) {
             };
             items.push(Re::Rep(Box::new(Re::Cls(Cls::Any)), mn, mx, if regexp { greedy } else { false }));
         }
-        if regexp { items.push(Re::Lit(l.clone())); } else { for b in l { items.push(Re::Cls(Cls::Byte(*b))); } }
+        fn flat(r: &Re, hex: bool, out: &mut Vec<Re>) {
+            match r {
+                Re::Cat(v) => for x in v { flat(x, hex, out) },
+                Re::Lit(l) if hex => for b in l { out.push(Re::Cls(Cls::Byte(*b))) },
+                x => out.push(x.clone()),
+            }
+        }
+        flat(pc, !regexp, &mut items);
     }
-    let p = if regexp { Pat::Regexp(Re::Cat(items), RMods { dotall: true, ..Default::default() }) } else { Pat::Hex(Re::Cat(items)) };
-    (p, lits)
+    if !regexp { return (Pat::Hex(Re::Cat(items)), pieces, false, None); }
+    let mut m = RMods { dotall: true, ..Default::default() };
+    let mut wide_inst = None;
+    match rng.below(12) {
+        0 | 1 => { m.nocase = true; }
+        2 => { m.wide = true; wide_inst = Some(true); }
+        3 => { m.wide = true; m.ascii = true; wide_inst = Some(rng.chance(1, 2)); }
+        4 => { m.fullword = true; }
+        5 => { m.nocase = true; m.wide = true; wide_inst = Some(true); }
+        _ => {}
+    }
+    let nc = m.nocase;
+    (Pat::Regexp(Re::Cat(items), m), pieces, nc, wide_inst)
 }
 
-/// buffers for a chain: the pieces in order, out of order, repeated heads / middles / tails, small
-/// separators, now and then more than 200 bytes of filler
-fn gen_chain_buffer(lits: &[Vec<u8>], rng: &mut Rng) -> Vec<u8> {
+/// buffers for a chain: instances of the pieces in order, out of order, repeated heads / middles /
+/// tails, small separators, now and then more than 200 bytes of filler
+fn gen_chain_buffer(pieces: &[Re], nc: bool, wide: Option<bool>, rng: &mut Rng) -> Vec<u8> {
     let mut buf = vec![];
-    let n = lits.len();
+    let n = pieces.len();
     let tokens = n + rng.below(2 * n as u64 + 2) as usize;
     let mut next = 0usize;
     let mut long_fillers = 0;
-    if rng.chance(1, 3) { buf.push(b'_'); }
+    let w = wide == Some(true);
+    if rng.chance(1, 3) { buf.push(b'_'); if w { buf.push(0); } }
     for _ in 0..tokens {
         let k = match rng.below(10) {
             0..=4 => { let k = next % n; next += 1; k }                 // in order
@@ -1207,62 +1264,95 @@ fn gen_chain_buffer(lits: &[Vec<u8>], rng: &mut Rng) -> Vec<u8> {
             7 if n > 2 => 1 + rng.below(n as u64 - 2) as usize,          // another middle
             _ => rng.below(n as u64) as usize,
         };
-        buf.extend_from_slice(&lits[k]);
-        if rng.chance(1, 8) { let l = buf.len(); buf[l - 1] ^= 0x20; }   // a near miss
+        let mut inst = vec![]; instance(&pieces[k], nc, rng, &mut inst);
+        if rng.chance(1, 8) && !inst.is_empty() { let l = inst.len(); inst[l - 1] ^= 0x20; }   // a near miss
+        if w { inst = widen(&inst); }
+        buf.extend_from_slice(&inst);
         let fill = if long_fillers < 1 && rng.chance(1, 40) { long_fillers += 1; 196 + rng.below(20) as usize } else { rng.below(4) as usize };
-        for _ in 0..fill { buf.push(*rng.pick(b"__.x")); }
+        // for the wide form mostly wide filler (the gap of a wide chain is not required to be wide: known finding)
+        if w && !rng.chance(1, 6) { for _ in 0..fill / 2 + fill % 2 { buf.push(*rng.pick(b"__.x")); buf.push(0); } }
+        else { for _ in 0..fill { buf.push(*rng.pick(b"__.x")); } }
         if buf.len() > 300 { break; }
     }
     buf
 }
 
-fn coq_chain_dump(dump: &Dump) -> Option<(String, String, usize, usize)> {
+/// kernel (0 vectorised, 1 automaton, 2 none), the hits on the atoms of pattern 0 (atom indices
+/// relative to the pattern's own atoms) and the verified sub-pattern matches of pattern 0
+fn coq_trace(out: &ScanOut, n_sub_patterns: usize) -> Option<(String, String, String, usize, usize)> {
+    let tr = out.trace.as_ref()?;
+    let (_, atoms, _) = out.dump.as_ref()?;
+    let mut local = std::collections::HashMap::new();
+    for (i, a) in atoms.iter().enumerate() { if a.sub_pattern_id < n_sub_patterns { let k = local.len(); local.insert(i, k); } }
+    let kernel = match tr.kernel { "teddy" => 0usize, "daachorse" => 1, _ => 2 };
+    let hits: Vec<String> = tr.hits.iter().filter_map(|(a, o)| local.get(a).map(|k| format!("({},{})", coq_nat(*k), coq_nat(*o)))).collect();
+    let evs: Vec<String> = tr.sub_pattern_matches.iter().filter(|(id, _, _)| *id < n_sub_patterns)
+        .map(|(id, s, e)| format!("({},{},{})", coq_nat(*id), coq_nat(*s), coq_nat(*e))).collect();
+    Some((coq_nat(kernel), format!("[{}]", hits.join("; ")), format!("[{}]", evs.join("; ")), hits.len(), evs.len()))
+}
+
+fn coq_chain_dump(dump: &Dump) -> Option<(String, String, usize, usize, usize)> {
     let (sps, atoms, _) = dump;
     let bits: std::collections::HashMap<&str, u16> = yara_x::verif_c01dump::verif_c01_flag_bits().into_iter().collect();
     let mine: Vec<(usize, &yara_x::verif_c01dump::SubPatternDump)> = sps.iter().enumerate().filter(|(_, sp)| sp.pattern_id == 0).collect();
     if mine.len() < 2 || mine.iter().enumerate().any(|(k, (i, _))| k != *i) { return None; }
     let mut out = vec![];
-    for (k, (_, sp)) in mine.iter().enumerate() {
+    let mut n_regexp = 0;
+    for (_, sp) in mine.iter() {
         let f = |n: &str| coq_bool(sp.flags & bits[n] != 0);
         let flags = format!("(mkF {} {} {} {})", f("Wide"), f("Nocase"), f("FullwordLeft"), f("FullwordRight"));
-        let lit = coq_list(sp.literal.as_deref()?, |b| b.to_string());
-        let link = match (sp.kind, k) {
-            ("LiteralChainHead", 0) => "None".to_string(),
-            ("LiteralChainTail", _) => {
-                let (mn, mx) = sp.gap?;
-                let g = match mx { Some(mx) => format!("GBounded {} {}", coq_nat(mn as usize), coq_nat(mx as usize)), None => format!("GUnbounded {}", coq_nat(mn as usize)) };
-                format!("(Some ({}, {}))", coq_nat(sp.chained_to?), g)
-            }
+        let (regexp, head) = match sp.kind {
+            "LiteralChainHead" => (false, true), "LiteralChainTail" => (false, false),
+            "RegexpChainHead" => (true, true), "RegexpChainTail" => (true, false),
             _ => return None,
         };
-        out.push(format!("mkCP {} {} {} {} {}", lit, flags, f("LastInChain"), f("GreedyRegexp"), link));
+        if regexp { n_regexp += 1; }
+        let lit = if regexp { "[]".to_string() } else { coq_list(sp.literal.as_deref()?, |b| b.to_string()) };
+        let link = if head { "None".to_string() } else {
+            let (mn, mx) = sp.gap?;
+            let g = match mx { Some(mx) => format!("GBounded {} {}", coq_nat(mn as usize), coq_nat(mx as usize)), None => format!("GUnbounded {}", coq_nat(mn as usize)) };
+            format!("(Some ({}, {}))", coq_nat(sp.chained_to?), g)
+        };
+        out.push(format!("mkCP {} {} {} {} {} {}", coq_bool(regexp), lit, flags, f("LastInChain"), f("GreedyRegexp"), link));
     }
     let my_atoms: Vec<String> = atoms.iter().filter(|a| a.sub_pattern_id < mine.len())
         .map(|a| format!("mkAtom {} {} {} {}", coq_nat(a.sub_pattern_id), coq_list(&a.bytes, |b| b.to_string()), coq_nat(a.backtrack), coq_bool(a.exact))).collect();
     let n_atoms = my_atoms.len();
-    Some((format!("[{}]", out.join("; ")), format!("[{}]", my_atoms.join("; ")), mine.len(), n_atoms))
+    Some((format!("[{}]", out.join("; ")), format!("[{}]", my_atoms.join("; ")), mine.len(), n_atoms, n_regexp))
 }
 
 fn chain_case(p: &Pat, data: &[u8], noise: usize, idx: usize, stats: &mut Stats) -> Option<(String, String, String)> {
     let src = rule_source(p, idx % CONDS.len(), noise);
-    let out = match scan(&src, data, None) { Ok(o) => o, Err(e) => { eprintln!("c01: stream e pattern rejected: {e}\n{src}"); return None; } };
+    let out = match scan(&src, data, None) { Ok(o) => o, Err(e) => { stats.inc("chain_rejected_by_compiler");
+        if std::env::var("C01_SHOW_REJECTED").is_ok() { eprintln!("c01: stream e pattern rejected: {e}\n{src}"); } return None; } };
     let dumped = coq_chain_dump(out.dump.as_ref()?);
-    if out.panic.is_some() || out.bytes_wrong.is_some() || dumped.is_none() {
-        // not a chain of literals (or a panic): the plain differential case
-        stats.inc("chain_not_literal_chain");
+    let traced = dumped.as_ref().and_then(|d| coq_trace(&out, d.2));
+    if out.panic.is_some() || out.bytes_wrong.is_some() || dumped.is_none() || traced.is_none() {
+        // not a chain (or a panic): the plain differential case
+        stats.inc("chain_not_a_chain");
         let (case, replay, _) = scan_case(p, data, idx % CONDS.len(), noise, None, idx).ok()?;
         return Some((case, replay, String::new()));
     }
-    let (pieces, atoms, np, natoms) = dumped?;
+    let (pieces, atoms, np, natoms, nre) = dumped?;
+    let (kernel, hits, evs, nhits, nevs) = traced?;
     stats.inc("chain_cases"); stats.inc(&format!("chain_pieces_{}", np)); stats.add("chain_atoms", natoms as u64);
-    stats.inc(match p { Pat::Regexp(Re::Cat(v), _) => if v.iter().any(|x| matches!(x, Re::Rep(_, _, _, true))) { "chain_regexp_greedy" } else { "chain_regexp_lazy" }, _ => "chain_hex" });
+    stats.add("chain_hits", nhits as u64); stats.add("chain_piece_matches", nevs as u64);
+    stats.inc(match nre { 0 => "chain_all_literal_pieces", n if n == np => "chain_all_regexp_pieces", _ => "chain_mixed_pieces" });
+    stats.inc(&format!("chain_kernel_{}", out.trace.as_ref().map_or("none", |t| t.kernel)));
+    match p {
+        Pat::Regexp(Re::Cat(v), m) => {
+            stats.inc(if v.iter().any(|x| matches!(x, Re::Rep(_, _, _, true))) { "chain_regexp_greedy" } else { "chain_regexp_lazy" });
+            if m.nocase { stats.inc("chain_nocase"); } if m.wide { stats.inc("chain_wide"); } if m.fullword { stats.inc("chain_fullword"); }
+        }
+        _ => stats.inc("chain_hex"),
+    }
     stats.inc(match out.matches.len() { 0 => "chain_matches_0", 1 => "chain_matches_1", _ => "chain_matches_2+" });
     if data.len() > 200 { stats.inc("chain_data_over_200"); }
-    let case = format!("ChainCase {} {} {} {} {}", coq_pat(p), pieces, atoms, coq_list(data, |b| b.to_string()),
+    let case = format!("ChainCase {} {} {} {} {} {} {} {}", coq_pat(p), pieces, atoms, kernel, hits, evs, coq_list(data, |b| b.to_string()),
         coq_list(&out.matches, |(s, l, k)| format!("({},{},{})", s, l, coq_key(k))));
-    let replay = format!("{{\"stream\":\"scan\",\"sub_stream\":\"chain\",\"index\":{},\"shape\":{},\"tags\":{},\"data_len\":{},\"source\":{},\"data_hex\":\"{}\",\"max_matches_per_pattern\":null,\"reported\":{},\"panic\":null,\"pieces\":{},\"atoms\":{}}}",
+    let replay = format!("{{\"stream\":\"scan\",\"sub_stream\":\"chain\",\"index\":{},\"shape\":{},\"tags\":{},\"data_len\":{},\"source\":{},\"data_hex\":\"{}\",\"max_matches_per_pattern\":null,\"reported\":{},\"panic\":null,\"pieces\":{},\"atoms\":{},\"kernel\":{},\"hits\":{},\"piece_matches\":{}}}",
         idx, json_str(&shape(p)), serde_json::to_string(&tags(p)).unwrap(), data.len(), json_str(&src), hex(data),
-        json_str(&format!("{:?}", out.matches)), json_str(&pieces), json_str(&atoms));
+        json_str(&format!("{:?}", out.matches)), json_str(&pieces), json_str(&atoms), json_str(out.trace.as_ref().map_or("none", |t| t.kernel)), json_str(&hits), json_str(&evs));
     let key = if out.matches.is_empty() { String::new() } else { format!("e|{}|{}", yara_pat(p), hex(data)) };
     Some((case, replay, key))
 }
@@ -1385,7 +1475,9 @@ pub fn run(args: &[String]) -> i32 {
         let prior: Vec<Vec<u8>> = arg_val(args, "--prior-hex").map(|v| v.split(',').filter(|x| !x.is_empty()).map(unhex).collect()).unwrap_or_default();
         let mut datas: Vec<&[u8]> = prior.iter().map(|d| &d[..]).collect(); datas.push(&data);
         match scan_multi(&src, &datas, &[ident.as_str()], mm) {
-            Ok(mut o) => { let o = o.pop().unwrap().remove(0); println!("reported={:?} panic={:?} bytes={:?}", o.matches, o.panic, o.bytes_wrong); return 0; }
+            Ok(mut o) => { let o = o.pop().unwrap().remove(0);
+                if args.iter().any(|a| a == "--trace") { println!("trace={:?}", o.trace); }
+                println!("reported={:?} panic={:?} bytes={:?}", o.matches, o.panic, o.bytes_wrong); return 0; }
             Err(e) => { println!("error: {e}"); return 1; }
         }
     }
@@ -1469,10 +1561,10 @@ pub fn run(args: &[String]) -> i32 {
         let mut tries = 0;
         while shards.total < budget.min(n) && tries < 20 * n {
             tries += 1; idx += 1;
-            let (p, lits) = gen_chain(&mut rng);
+            let (p, pieces, nc, wide) = gen_chain(&mut rng);
             let noise = if rng.chance(1, 4) { *rng.pick(&[20usize, 40, 70]) } else { 0 };
             for _ in 0..(1 + rng.below(3)) {
-                let data = gen_chain_buffer(&lits, &mut rng);
+                let data = gen_chain_buffer(&pieces, nc, wide, &mut rng);
                 if let Some((case, replay, key)) = chain_case(&p, &data, noise, idx, &mut stats) {
                     if !key.is_empty() { distinct.insert(key); }
                     shards.push(case, replay);
